@@ -5,13 +5,16 @@
    (int = Z, bool = bool, list/tuple/Sequence/iterator of T = list T, flat contiguous tensor = offset/length/shape).
    Definitions only; the lemmas about them live in PyPreludeFacts.v. *)
 From Coq Require Import ZArith List Bool.
+From Coq Require String.
 Import ListNotations.
 Open Scope Z_scope.
 
 (* ---- outcomes -------------------------------------------------------------------------------------------- *)
 (* the exception classes the translated functions can raise, plus those of the translated operators *)
 Inductive exn := ValueError | AssertionError | IndexError | ZeroDivisionError | TypeError | NotImplementedError | ArithmeticError
-               | PassedException.   (* `raise e` where e is a parameter holding an exception object built by the caller *)
+               | KeyError | AttributeError
+               | PassedException     (* `raise e` where e is a parameter holding an exception object built by the caller *)
+               | UnmodelledEffect.   (* an operation whose effect lies outside the value domain (item assignment INTO a tensor) *)
 
 (* outcome of evaluating a Python expression / running a function body:
      Ret v          normal completion with value v
@@ -45,6 +48,9 @@ Arguments Raised {A} e site.
 Definition py_floordiv (a b : Z) : result Z := if b =? 0 then Raise ZeroDivisionError 0 else Ret (a / b).
 Definition py_mod (a b : Z) : result Z := if b =? 0 then Raise ZeroDivisionError 0 else Ret (a mod b).
 
+(* a foreign partial function given as a parameter (json.loads : str -> option value): None is the stated exception *)
+Definition py_of_option {A} (o : option A) (e : exn) : result A := match o with Some a => Ret a | None => Raise e 0 end.
+
 (* ---- sequences --------------------------------------------------------------------------------------------- *)
 Definition py_len {A} (l : list A) : Z := Z.of_nat (length l).
 
@@ -57,6 +63,16 @@ Definition py_index {A} (l : list A) (i : Z) : result A :=
 (* first, *rest = l : raises ValueError ("not enough values to unpack") on an empty l *)
 Definition py_uncons {A} (l : list A) : result (A * list A) :=
   match l with [] => Raise ValueError 0 | x :: r => Ret (x, r) end.
+
+(* *init, last = l : raises ValueError on an empty l *)
+Fixpoint py_unsnoc {A} (l : list A) : result (list A * A) :=
+  match l with
+  | [] => Raise ValueError 0
+  | x :: r => match r with
+              | [] => Ret ([], x)
+              | _ :: _ => bind (py_unsnoc r) (fun p => Ret (x :: fst p, snd p))
+              end
+  end.
 
 (* l[a:] : slices never raise; a negative lower bound counts from the end, both ends are clipped *)
 Definition py_slice_from {A} (l : list A) (a : Z) : list A :=
@@ -148,6 +164,36 @@ Definition pq_replace (h : list (Z * Z)) (x : Z * Z) : result (list (Z * Z)) :=
    then the indices are sorted by key, descending and stable *)
 Definition py_sorted_desc_getitem (l : list Z) (idx : list Z) : result (list Z) :=
   bind (py_mapM (fun i => bind (py_index l i) (fun k => Ret (i, k))) idx) (fun ps => Ret (map fst (py_sorted_desc_snd ps))).
+
+(* ---- dicts ------------------------------------------------------------------------------------------------ *)
+(* A Python dict with keys of a type K that has a boolean equality `eqb` (the == of its hashable keys) is the list of its
+   (key, value) items in insertion order, keys pairwise different.  d.items() is that list. *)
+Section PyDict.
+  Context {K V : Type} (eqb : K -> K -> bool).
+
+  (* d.get(k) / `k in d` *)
+  Fixpoint py_dict_get (k : K) (d : list (K * V)) : option V :=
+    match d with [] => None | (k', v) :: r => if eqb k k' then Some v else py_dict_get k r end.
+  Definition py_dict_contains (k : K) (d : list (K * V)) : bool := match py_dict_get k d with Some _ => true | None => false end.
+  (* d[k] : KeyError if absent *)
+  Definition py_dict_getitem (d : list (K * V)) (k : K) : result V := py_of_option (py_dict_get k d) KeyError.
+  (* d[k] = v : an existing key keeps its position (and its key object) and gets the new value, a new key is appended *)
+  Fixpoint py_dict_set (k : K) (v : V) (d : list (K * V)) : list (K * V) :=
+    match d with
+    | [] => [(k, v)]
+    | (k', v') :: r => if eqb k k' then (k', v) :: r else (k', v') :: py_dict_set k v r
+    end.
+  (* a | b : a new dict, a's items then b's items assigned one after the other *)
+  Definition py_dict_or (a b : list (K * V)) : list (K * V) := fold_left (fun acc kv => py_dict_set (fst kv) (snd kv) acc) b a.
+End PyDict.
+
+(* ---- str ------------------------------------------------------------------------------------------------- *)
+(* sorted(l) on a list of str: ascending in Python's str order, which on the UTF-8 bytes Coq strings hold is the byte-wise
+   lexicographic order String.leb (equal strings are indistinguishable, so stability is moot); sep.join(l) *)
+Fixpoint py_str_insert (x : String.string) (l : list String.string) : list String.string :=
+  match l with [] => [x] | y :: r => if String.leb x y then x :: l else y :: py_str_insert x r end.
+Definition py_sorted_str (l : list String.string) : list String.string := fold_right py_str_insert [] l.
+Definition py_str_join (sep : String.string) (l : list String.string) : String.string := String.concat sep l.
 
 (* ---- itertools (iterators are consumed once by the callers; as values they are the lists of what they yield) -- *)
 (* compress(data, selectors): stops at the shorter argument *)
